@@ -53,11 +53,11 @@ class Check:
 
     # ------------------------------------------------------------------ recording
     def ob(self, rule: str, instance: str, ok: Optional[bool], where: str = "", found: Any = None,
-           accepted: Any = None, why: str = "", key: Optional[str] = None, nontrivial: bool = True) -> bool:
+           accepted: Any = None, why: str = "", key: Optional[str] = None, nontrivial: bool = True, absent_is_unknown: bool = False) -> bool:
         """record one obligation. ok=True discharged, False violated, None not understood."""
-        if ok is False and (found is None or (isinstance(found, (list, tuple, dict, set, str)) and len(found) == 0)):
-            # verdict discipline (DESIGN 0.2): a violation needs a construct that was positively understood and lies outside the accept set. A rule that found NOTHING of what it
-            # looks for (the code is spelled some other way) has understood nothing: "not understood", never a violation
+        if absent_is_unknown and ok is False and (found is None or (isinstance(found, (list, tuple, dict, set, str)) and len(found) == 0)):
+            # verdict discipline (DESIGN 0.2) for rules that LOOK FOR a construct: having recognised none of it (the code is spelled some other way) is "not understood".
+            # Opt-in per rule: for other rules an empty finding IS the violation (an argument that is not forwarded, a name set that came out empty)
             ok = None
             why = (why + " " if why else "") + "[the rule recognised none of the constructs it looks for]"
         self.obligations.append({
